@@ -1222,7 +1222,7 @@ def normalize(lst, min=0.0, max=1.0):
 def normsum(lst):  # normalizeSum/normalize_sum
     return list(map(operator.truediv, lst, itertools.repeat(sum(lst))))
 
-def shuffle(lst, random=None):
+def shuffle(lst):
     '''Shuffle a list in place and return `None`.
 
     This function is a wrapper of `random.shuffle` which takes routines'
@@ -1230,9 +1230,9 @@ def shuffle(lst, random=None):
 
     '''
 
-    _libsc3.main._rgen.shuffle(lst, random)
+    _libsc3.main._rgen.shuffle(lst)
 
-def scramble(lst, random=None):
+def scramble(lst):
     '''Return a new shuffled list from `lst`.
 
     This function uses `random.shuffle` internally and takes routines'
@@ -1241,7 +1241,7 @@ def scramble(lst, random=None):
     '''
 
     lst = lst.copy()
-    _libsc3.main._rgen.shuffle(lst, random)
+    _libsc3.main._rgen.shuffle(lst)
     return lst
 
 # mirror, mirror1, mirror2  # one mirror with mode.
